@@ -215,6 +215,10 @@ impl Sim {
             post_reconnect_queue_drain_policy: if cfg.one_at_a_time { PostReconnectQueueDrainPolicy::OneAtATime } else { PostReconnectQueueDrainPolicy::None },
             max_interrupted_retries: cfg.retries,
         });
+        let mut eng = eng;
+        if cfg.first_pid != 0 {
+            eng.seek_packet_id(cfg.first_pid);
+        }
         Sim {
             cfg: cfg.clone(),
             eng,
@@ -898,7 +902,10 @@ impl Sim {
     }
 
     pub fn build_connack(&mut self, kind: ConnackKind) -> rf::Connack {
-        let tpl = self.cfg.connack.clone();
+        let tpl = match &self.cfg.connack_alt {
+            Some(alt) if self.conn_count % 2 == 0 => alt.clone(),
+            _ => self.cfg.connack.clone(),
+        };
         let (clean, client_id_empty) = match self.conn.as_ref().and_then(|c| c.connect.as_ref()) {
             Some(cn) => (cn.clean_start, cn.client_id.is_empty()),
             None => (true, false),
